@@ -97,6 +97,12 @@ def files(ctx):
             c.replay = {'files': ['1 [2', ',3] 4 '], 'expected': exp, 'actual': show(r['stdout'])}
             c.status = 'reproduced' if show(r['stdout']) != exp else 'unit'
             if c.status != 'reproduced':
+                # every file argument is read each time it is given (the same file twice, also through a link): out(A.A) = out(A).out(A)
+                one = os.path.join(td, 'one.json'); open(one, 'w').write('{"v":1} 2'); ln = os.path.join(td, 'link.json'); os.symlink(one, ln)
+                r1 = run_jawk(ctx, ['--style', 'consise', one], b''); r2 = run_jawk(ctx, ['--style', 'consise', one, one, ln], b'')
+                if r2['stdout'] != r1['stdout'] * 3 or r2['rc'] != 0:
+                    c.status = 'reproduced'; c.unmodelled = None; c.replay = {'what': 'the same file given twice and once more through a link', 'once': show(r1['stdout']), 'three_times': show(r2['stdout'])}
+            if c.status != 'reproduced':
                 # a file argument that is a pipe fed for ever: the reader must stream it (--take ends the run), not slurp it
                 import subprocess, time as _t
                 fifo = os.path.join(td, 'pipe'); os.mkfifo(fifo)
@@ -249,6 +255,11 @@ def replay_sources(ctx, cands):
                 if strip(a.stdout) != strip(b.stdout) or (a.returncode == 0) != (b.returncode == 0) or nerr(a.stdout) != nerr(b.stdout):
                     found = {'what': 'the same bytes as a file and on stdin', 'bytes': repr(data), 'argv': argv, 'file': {'rc': a.returncode, 'stdout': show(a.stdout)[:300]}, 'stdin': {'rc': b.returncode, 'stdout': show(b.stdout)[:300]}}; break
             if found: break
+        if not found:
+            one = os.path.join(td, 'one.json'); open(one, 'w').write('{"v":1} 2'); ln = os.path.join(td, 'link.json'); os.symlink(one, ln)
+            r1 = subprocess.run([exe, '--style', 'consise', one], stdout=subprocess.PIPE, stderr=subprocess.PIPE, timeout=20)
+            r2 = subprocess.run([exe, '--style', 'consise', one, one, ln], stdout=subprocess.PIPE, stderr=subprocess.PIPE, timeout=20)
+            if r2.stdout != r1.stdout * 3 or r2.returncode != 0: found = {'what': 'the same file given twice and once more through a link', 'once': show(r1.stdout), 'three_times': show(r2.stdout)}
         if not found:
             d = os.path.join(td, 'dir'); os.mkdir(d)
             open(os.path.join(d, 'a.json'), 'w').write('1'); open(os.path.join(d, 'c.json'), 'w').write('3')
